@@ -280,8 +280,12 @@ def expand_cases(files, seeds, configs, extra_args=()):
             for W, tin, tout, og in configs:
                 env = {"VERIF_SCHED_SEED": s, "VERIF_IN_GRANUL": iob, "VERIF_OUT_GRANUL": og,
                        "VERIF_IN_SLOTS": tin, "VERIF_OUT_SLOTS": tout}
+                # every third seed with a consumer slower than the workers: all output slots fill, the queues that count
+                # blocks (order_q, reord_q, output_q) reach their capacity
+                if s % 3 == 2:
+                    env["VERIF_DELAY"] = "write:0=3000"
                 cases.append(Case("%s|d W=%d %s" % (name, W, env), ["-d", "-n", str(W)] + list(extra_args), data, env,
-                                  expect_out=plain, expect_fail=plain is None, kind="expand", timeout=20))
+                                  expect_out=plain, expect_fail=plain is None, kind="expand", timeout=40 if s % 3 == 2 else 20))
     return cases
 
 
